@@ -205,6 +205,9 @@ func renderTok(r *rand.Rand, t Tok, o RenderOpts) string {
 	case KW, PKW:
 		return caseWord(r, t.Text, o.Case)
 	case ID:
+		if t.Quote {
+			return "`" + escapeBody(r, t.Text, '`', false, true, o.Quote == 1) + "`"
+		}
 		return renderIdent(r, t.Text, o.Quote == 1)
 	case STR:
 		return renderString(r, t.Text, false, o.Quote == 1)
@@ -244,12 +247,21 @@ func fuses(a, b string) bool {
 func Render(r *rand.Rand, s Sentence, o RenderOpts) string {
 	var sb strings.Builder
 	prev := ""
+	afterDotPlain := false
 	for i, t := range s.Toks {
 		cur := renderTok(r, t, o)
+		// "after '.', an identifier-like run (even a keyword) is an identifier": write such a name unquoted sometimes
+		afterDotPlain = false
+		if t.Role == ID && i >= 2 && s.Toks[i-1].Role == PUNCT && s.Toks[i-1].Text == "." && identShaped(t.Text) && reflex.IsReserved(t.Text) && r.IntN(2) == 0 {
+			if p := s.Toks[i-2]; p.Role == ID || p.Role == PARAM || (p.Role == PUNCT && (p.Text == ")" || p.Text == "]")) {
+				cur = t.Text
+				afterDotPlain = true
+			}
+		}
 		if i > 0 {
 			hintBrace := t.Role == PUNCT && t.Text == "{" && s.Toks[i-1].Role == PUNCT && s.Toks[i-1].Text == "@"
 			switch {
-			case hintBrace:
+			case hintBrace, afterDotPlain:
 			case o.Trivia == 0:
 				sb.WriteByte(' ')
 			case o.Trivia == 1:
